@@ -22,6 +22,8 @@ pub enum ClientKind {
 pub struct Client {
     pub func: usize,
     pub kind: ClientKind,
+    /// evaluators only: created on `segments[from..]` of the function's storage (0 = the whole function)
+    pub from: usize,
 }
 
 #[derive(Clone, Copy, Debug, PartialEq)]
@@ -34,12 +36,17 @@ pub enum Ev {
     Pull { c: usize },
     /// Drop client `c` and create a fresh one on the same function.
     Restart { c: usize },
+    /// Drop every client of function `f`, change the function IN PLACE (same storage, same addresses),
+    /// and re-create those clients. `shift_ends`: every `end += by`; otherwise `translate(by)`.
+    Mutate { f: usize, shift_ends: bool, by: f64 },
 }
 
 impl Ev {
+    /// The client an event addresses (`usize::MAX` for events that address a function).
     fn client(&self) -> usize {
         match *self {
             Ev::Query { c, .. } | Ev::Feed { c, .. } | Ev::Pull { c } | Ev::Restart { c } => c,
+            Ev::Mutate { .. } => usize::MAX,
         }
     }
     fn with_client(&self, c: usize) -> Ev {
@@ -48,6 +55,7 @@ impl Ev {
             Ev::Feed { x, .. } => Ev::Feed { c, x },
             Ev::Pull { .. } => Ev::Pull { c },
             Ev::Restart { .. } => Ev::Restart { c },
+            e @ Ev::Mutate { .. } => e,
         }
     }
     fn arg(&self) -> Option<f64> {
@@ -153,9 +161,41 @@ fn is_well_formed(t: &dyn Target) -> bool {
     true
 }
 
-fn new_client<'a>(t: &'a dyn Target, kind: ClientKind) -> Result<ClientState<'a>, (String, String)> {
+/// A live client together with the reference its answers are compared with: the function itself, or,
+/// for an evaluator on a sub-slice, an independent copy of that tail. `reference` is a raw pointer into a
+/// `Box` owned either by the run's function table or by `_tail` (heap addresses are stable).
+struct Cl {
+    state: ClientState<'static>,
+    reference: *const dyn Target,
+    ref_ends: Vec<f64>,
+    _tail: Option<Box<dyn Target>>,
+}
+
+fn ends_of(t: &dyn Target) -> Vec<f64> {
+    (0..t.len()).map(|i| t.end(i)).collect()
+}
+
+/// SAFETY (for the two `'static` extensions below): a client's closures/iterators borrow the heap
+/// allocation behind one `Box<dyn Target>` of the run's function table. `execute` declares the table
+/// before the client vector, so clients are dropped first on every exit path; the only place a function
+/// is touched while the table lives is the `Mutate` event, which first replaces every client of that
+/// function by `Dead`.
+fn make_client(t: *const dyn Target, c: &Client) -> Result<Cl, (String, String)> {
+    let tref: &'static dyn Target = unsafe { &*t };
+    let from = if c.kind == ClientKind::Eval { c.from.min(tref.len().saturating_sub(1)) } else { 0 };
+    let state = new_client(tref, c.kind, from)?;
+    if from > 0 {
+        let tail = guard(|| tref.tail_clone(from)).map_err(|p| ("panic".to_string(), format!("cloning a tail of the function panicked: {p}")))?;
+        let reference: *const dyn Target = &*tail;
+        Ok(Cl { state, reference, ref_ends: ends_of(&*tail), _tail: Some(tail) })
+    } else {
+        Ok(Cl { state, reference: t, ref_ends: ends_of(tref), _tail: None })
+    }
+}
+
+fn new_client<'a>(t: &'a dyn Target, kind: ClientKind, from: usize) -> Result<ClientState<'a>, (String, String)> {
     match kind {
-        ClientKind::Eval => match guard(|| t.evaluator()) {
+        ClientKind::Eval => match guard(|| if from == 0 { t.evaluator() } else { t.evaluator_from(from) }) {
             Ok(e) => Ok(ClientState::Eval(e)),
             Err(p) => Err(("panic".into(), format!("PiecewiseEvaluator::new panicked: {p}"))),
         },
@@ -229,14 +269,17 @@ pub fn execute(scn: &CursorScn, judge: Judge, cov: &mut Cov, prog: &Progress) ->
             }
         }
     }
-    let ends: Vec<Vec<f64>> = funcs.iter().map(|t| (0..t.len()).map(|i| t.end(i)).collect()).collect();
     let mut dig = Digest::new();
-    let mut clients: Vec<ClientState> = Vec::with_capacity(scn.clients.len());
+    // NB: declared after `funcs`, hence dropped before it (see `make_client`).
+    let mut clients: Vec<Cl> = Vec::with_capacity(scn.clients.len());
     for c in &scn.clients {
         if c.func >= funcs.len() {
             return RunResult::Discard;
         }
-        match new_client(&*funcs[c.func], c.kind) {
+        if c.from > 0 {
+            cov.hit("clients_on_a_sub_slice");
+        }
+        match make_client(&*funcs[c.func] as *const dyn Target, c) {
             Ok(s) => clients.push(s),
             Err((class, detail)) => return RunResult::Violation { class, detail },
         }
@@ -247,20 +290,58 @@ pub fn execute(scn: &CursorScn, judge: Judge, cov: &mut Cov, prog: &Progress) ->
     for (step, ev) in scn.events.iter().enumerate() {
         prog.tick();
         cov.events += 1;
+        if let Ev::Mutate { f, shift_ends, by } = *ev {
+            if f >= funcs.len() || !by.is_finite() {
+                continue;
+            }
+            // no client of this function may outlive the change
+            for (ci, c) in scn.clients.iter().enumerate() {
+                if c.func == f {
+                    clients[ci].state = ClientState::Dead;
+                    clients[ci]._tail = None;
+                }
+            }
+            let how = if shift_ends { Mutation::ShiftEnds } else { Mutation::Translate };
+            let fm = &mut funcs[f];
+            if let Err(p) = guard(|| fm.mutate(how, by)) {
+                if !judge.build {
+                    return RunResult::Discard;
+                }
+                return RunResult::Violation { class: "panic".into(), detail: format!("step {step}: changing function {f} in place ({how:?} by {by:e}) panicked: {p}") };
+            }
+            cov.hit(if shift_ends { "fault_function_ends_shifted_in_place" } else { "fault_function_translated_in_place" });
+            if !is_well_formed(&*funcs[f]) {
+                return RunResult::Discard;
+            }
+            for (ci, c) in scn.clients.iter().enumerate() {
+                if c.func == f {
+                    match make_client(&*funcs[f] as *const dyn Target, c) {
+                        Ok(s) => clients[ci] = s,
+                        Err((class, detail)) => return RunResult::Violation { class, detail: format!("step {step}: {detail}") },
+                    }
+                    prev_x[ci] = None;
+                    nan_seen[ci] = false;
+                }
+            }
+            continue;
+        }
         let c = ev.client();
         if c >= clients.len() {
             continue;
         }
         let fi = scn.clients[c].func;
-        let t = &*funcs[fi];
-        let e = &ends[fi];
+        let Cl { state, reference, ref_ends, .. } = &mut clients[c];
+        // SAFETY: `reference` points into a Box that outlives the client (see `make_client`).
+        let t: &dyn Target = unsafe { &**reference };
+        let e: &[f64] = ref_ends;
         match *ev {
+            Ev::Mutate { .. } => {}
             Ev::Query { x, .. } => {
-                let ClientState::Eval(evf) = &mut clients[c] else { continue };
+                let ClientState::Eval(evf) = state else { continue };
                 let r = match guard(|| evf(x)) {
                     Ok(r) => r,
                     Err(p) => {
-                        clients[c] = ClientState::Dead;
+                        *state = ClientState::Dead;
                         return RunResult::Violation {
                             class: "panic".into(),
                             detail: format!("step {step}: PiecewiseEvaluator::evaluate({x:e}) on client {c} panicked: {p}"),
@@ -306,14 +387,14 @@ pub fn execute(scn: &CursorScn, judge: Judge, cov: &mut Cov, prog: &Progress) ->
                 }
             }
             Ev::Feed { x, .. } => {
-                if let ClientState::Stream { feed, expect, .. } = &mut clients[c] {
+                if let ClientState::Stream { feed, expect, .. } = state {
                     feed.push(x);
                     expect.push_back(x);
                     cov.hit("stream_feeds");
                 }
             }
             Ev::Pull { .. } => {
-                let ClientState::Stream { it, feed, expect, runmax, poisoned } = &mut clients[c] else { continue };
+                let ClientState::Stream { it, feed, expect, runmax, poisoned } = state else { continue };
                 let Some(x) = expect.pop_front() else {
                     // Nothing queued: pulling would end the caller's iterator, after which the
                     // property says nothing. Treated as a no-op (also keeps shrinking sound).
@@ -324,7 +405,6 @@ pub fn execute(scn: &CursorScn, judge: Judge, cov: &mut Cov, prog: &Progress) ->
                 let r = match guard(|| it.next()) {
                     Ok(r) => r,
                     Err(p) => {
-                        clients[c] = ClientState::Dead;
                         return RunResult::Violation {
                             class: "panic".into(),
                             detail: format!("step {step}: evaluate_v stream {c} panicked on next() with input {x:e}: {p}"),
@@ -418,8 +498,8 @@ pub fn execute(scn: &CursorScn, judge: Judge, cov: &mut Cov, prog: &Progress) ->
                     ClientKind::Eval => "fault_restart_evaluator",
                     ClientKind::Stream => "fault_cancel_restart_stream",
                 });
-                clients[c] = ClientState::Dead;
-                match new_client(t, scn.clients[c].kind) {
+                *state = ClientState::Dead;
+                match make_client(&*funcs[fi] as *const dyn Target, &scn.clients[c]) {
                     Ok(s) => clients[c] = s,
                     Err((class, detail)) => return RunResult::Violation { class, detail: format!("step {step}: {detail}") },
                 }
@@ -436,7 +516,8 @@ pub fn execute(scn: &CursorScn, judge: Judge, cov: &mut Cov, prog: &Progress) ->
         prog.tick();
         cov.events += 1;
         let t = &*funcs[b.func];
-        let e = &ends[b.func];
+        let e_owned = ends_of(t);
+        let e = &e_owned;
         // expected sequence: pointwise while non-decreasing, running-maximum segment otherwise
         let want: Vec<Option<f64>> = match guard(|| {
             let mut want: Vec<Option<f64>> = Vec::with_capacity(b.xs.len());
@@ -775,7 +856,7 @@ pub fn gen_scenario(rng: &mut Rng, profile: Profile, tier: Tier) -> CursorScn {
             post: crate::funcs::Post::None,
         };
     }
-    let steer: Vec<Vec<f64>> = funcs.iter().map(steering_ends).collect();
+    let mut steer: Vec<Vec<f64>> = funcs.iter().map(steering_ends).collect();
     let nclients = match rng.below(10) {
         0..=4 => 1,
         5..=7 => 2,
@@ -796,7 +877,10 @@ pub fn gen_scenario(rng: &mut Rng, profile: Profile, tier: Tier) -> CursorScn {
                 }
             }
         };
-        clients.push(Client { func, kind });
+        // an evaluator may live on a sub-slice of the function's storage
+        let flen = steer[func].len();
+        let from = if kind == ClientKind::Eval && flen >= 2 && rng.chance(1, 6) { rng.usize_in(1, flen - 1) } else { 0 };
+        clients.push(Client { func, kind, from });
     }
     // Per-stream behaviour: monotone (non-decreasing) or arbitrary argument sequences.
     let monotone: Vec<bool> = clients.iter().map(|_| rng.chance(1, 2)).collect();
@@ -836,9 +920,33 @@ pub fn gen_scenario(rng: &mut Rng, profile: Profile, tier: Tier) -> CursorScn {
     let mut queued: Vec<usize> = vec![0; clients.len()];
     let mut runmax: Vec<Option<f64>> = vec![None; clients.len()];
     let mut events = Vec::with_capacity(nev + 4);
+    // in-place changes of a function between client lifetimes (same storage, same addresses)
+    let mutate_rate = *rng.pick(&[0u64, 0, 0, 1, 3]);
     while events.len() < nev {
         let c = rng.usize_in(0, clients.len() - 1);
-        let e = &steer[clients[c].func];
+        if rng.below(40) < mutate_rate {
+            let f = clients[c].func;
+            let shift_ends = rng.chance(1, 2);
+            let by = *rng.pick(&[1.0, -1.0, 0.5, 2.0, -3.0]);
+            events.push(Ev::Mutate { f, shift_ends, by });
+            if shift_ends {
+                for x in steer[f].iter_mut() {
+                    *x += by;
+                }
+            }
+            for k in 0..clients.len() {
+                if clients[k].func == f {
+                    prev[k] = None;
+                    queued[k] = 0;
+                    runmax[k] = None;
+                }
+            }
+            continue;
+        }
+        let e = {
+            let full = &steer[clients[c].func];
+            &full[clients[c].from.min(full.len() - 1)..]
+        };
         if rng.below(40) < restart_rate {
             events.push(Ev::Restart { c });
             prev[c] = None;
@@ -1025,7 +1133,7 @@ pub fn order_type(ends_per_func: &[Vec<f64>], scn: &CursorScn) -> u64 {
         }
     }
     for c in &scn.clients {
-        d.word(0xC0 + c.func as u64 * 2 + (c.kind == ClientKind::Stream) as u64);
+        d.word(0xC0 + c.func as u64 * 2 + (c.kind == ClientKind::Stream) as u64 + 65536 * c.from as u64);
     }
     for ev in &scn.events {
         match *ev {
@@ -1039,6 +1147,7 @@ pub fn order_type(ends_per_func: &[Vec<f64>], scn: &CursorScn) -> u64 {
             }
             Ev::Pull { c } => d.word(3 + 8 * c as u64),
             Ev::Restart { c } => d.word(4 + 8 * c as u64),
+            Ev::Mutate { f, shift_ends, .. } => d.word(5 + 8 * f as u64 + 4096 * shift_ends as u64),
         }
     }
     for b in &scn.batches {
@@ -1077,7 +1186,7 @@ fn nontrivial(scn: &CursorScn) -> bool {
 /// The small scope: one directly built function with 1-4 segments and finite ends, one evaluator,
 /// 1-4 finite queries and nothing else. Returns the canonical class (order type) of such a run.
 pub fn small_scope_class(scn: &CursorScn) -> Option<u64> {
-    if scn.funcs.len() != 1 || scn.clients.len() != 1 || scn.clients[0].kind != ClientKind::Eval {
+    if scn.funcs.len() != 1 || scn.clients.len() != 1 || scn.clients[0].kind != ClientKind::Eval || scn.clients[0].from != 0 {
         return None;
     }
     let f = &scn.funcs[0];
@@ -1196,7 +1305,7 @@ pub fn gen_small_scope(rng: &mut Rng) -> CursorScn {
             ops: vec![],
             post: crate::funcs::Post::None,
         }],
-        clients: vec![Client { func: 0, kind: ClientKind::Eval }],
+        clients: vec![Client { func: 0, kind: ClientKind::Eval, from: 0 }],
         events,
         batches: vec![],
     }
@@ -1264,13 +1373,23 @@ fn drop_unused(scn: &CursorScn) -> Option<CursorScn> {
             .map(|c| Client {
                 func: fmap[c.func].unwrap(),
                 kind: c.kind,
+                from: c.from,
             })
             .collect(),
         events: scn
             .events
             .iter()
-            .filter(|e| e.client() < cmap.len() && cmap[e.client()].is_some())
-            .map(|e| e.with_client(cmap[e.client()].unwrap()))
+            .filter_map(|e| match *e {
+                Ev::Mutate { f, shift_ends, by } => fmap.get(f).copied().flatten().map(|nf| Ev::Mutate { f: nf, shift_ends, by }),
+                _ => {
+                    let c = e.client();
+                    if c < cmap.len() {
+                        cmap[c].map(|nc| e.with_client(nc))
+                    } else {
+                        None
+                    }
+                }
+            })
             .collect(),
     })
 }
@@ -1359,6 +1478,14 @@ pub fn shrink_candidates(scn: &CursorScn) -> Vec<CursorScn> {
             out.push(s);
         }
     }
+    // 1c. evaluators on the whole function rather than on a sub-slice
+    for (i, c) in scn.clients.iter().enumerate() {
+        if c.from > 0 {
+            let mut s = scn.clone();
+            s.clients[i].from = 0;
+            out.push(s);
+        }
+    }
     // 2. drop unused clients / functions
     if let Some(s) = drop_unused(scn) {
         out.push(s);
@@ -1399,12 +1526,14 @@ pub fn scn_to_json(scn: &CursorScn) -> Value {
         "clients": scn.clients.iter().map(|c| json!({
             "function": c.func,
             "kind": match c.kind { ClientKind::Eval => "evaluator", ClientKind::Stream => "evaluate_v_stream" },
+            "on_segments_from": c.from,
         })).collect::<Vec<_>>(),
         "events": scn.events.iter().map(|e| match *e {
             Ev::Query { c, x } => json!({"op": "query", "client": c, "x": fj(x)}),
             Ev::Feed { c, x } => json!({"op": "feed", "client": c, "x": fj(x)}),
             Ev::Pull { c } => json!({"op": "pull", "client": c}),
             Ev::Restart { c } => json!({"op": "restart", "client": c}),
+            Ev::Mutate { f, shift_ends, by } => json!({"op": "mutate_in_place", "function": f, "how": if shift_ends { "every end += by" } else { "translate(by)" }, "by": fj(by)}),
         }).collect::<Vec<_>>(),
         "batches": scn.batches.iter().map(|b| json!({
             "function": b.func,
@@ -1443,6 +1572,7 @@ pub fn scn_from_json(v: &Value) -> Result<CursorScn, String> {
                     "evaluate_v_stream" => ClientKind::Stream,
                     k => return Err(format!("bad client kind {k}")),
                 },
+                from: c.get("on_segments_from").and_then(|x| x.as_u64()).unwrap_or(0) as usize,
             })
         })
         .collect::<Result<Vec<_>, String>>()?;
@@ -1452,6 +1582,13 @@ pub fn scn_from_json(v: &Value) -> Result<CursorScn, String> {
         .ok_or("missing events")?
         .iter()
         .map(|e| {
+            if jstr(e, "op")? == "mutate_in_place" {
+                let f = jusize(e, "function")?;
+                if f >= funcs.len() {
+                    return Err("mutate_in_place refers to a missing function".to_string());
+                }
+                return Ok(Ev::Mutate { f, shift_ends: jstr(e, "how")? == "every end += by", by: jf(e.get("by").ok_or("missing by")?)? });
+            }
             let c = jusize(e, "client")?;
             Ok(match jstr(e, "op")? {
                 "query" => Ev::Query { c, x: jf(e.get("x").ok_or("missing x")?)? },
